@@ -373,3 +373,87 @@ def _zip_kind(z, parents):
             return 'compare'
         return 'build'
     return 'build'
+
+
+# ---------------------------------------------------------------------- arguments the result depends on
+def _arg_components(f):
+    """({index: names} from `a, b = args`, {k of direct args[k]}, whole-use flag) for the argument parameter of a macro method"""
+    ps = f.params()
+    if len(ps) < 2:
+        return None
+    a = ps[1]
+    comp, direct, whole, unpack = {}, set(), False, set()
+    parents = {}
+    for n in ast.walk(f.node):
+        for c in ast.iter_child_nodes(n):
+            parents[id(c)] = n
+    for n in ast.walk(f.node):
+        if isinstance(n, ast.Assign) and is_name(n.value, a) and isinstance(n.targets[0], (ast.Tuple, ast.List)):
+            for i, t in enumerate(n.targets[0].elts):
+                if isinstance(t, ast.Name):
+                    comp.setdefault(i, set()).add(t.id)
+            unpack.add(id(n.value))
+        if isinstance(n, ast.Subscript) and is_name(n.value, a) and isinstance(n.slice, ast.Constant) and isinstance(n.slice.value, int):
+            direct.add(n.slice.value)
+    for n in ast.walk(f.node):
+        if isinstance(n, ast.Name) and n.id == a and isinstance(n.ctx, ast.Load) and id(n) not in unpack:
+            p = parents.get(id(n))
+            if isinstance(p, ast.Subscript) and p.value is n and isinstance(p.slice, ast.Constant):
+                continue
+            if isinstance(p, ast.Call) and isinstance(p.func, ast.Name) and p.func.id in ('len', 'isinstance', 'type'):
+                continue
+            whole = True
+    return a, comp, direct, whole
+
+
+def argument_dependence_rule(repo, rule_id, scope, floor):
+    """Evaluation and expansion get the same arguments.  If the reported result depends on a component of the
+    argument tuple that the premises do not determine (no guard equates it with something computed from the premises
+    alone), the expansion must look at that component too: an expansion that ignores it proves one and the same
+    theorem for all its values, the evaluation reports different ones, and the checker rejects the step for all
+    values but one.  (swap_disj_to_front: the literal list fixes how many literals the clause has; an expansion that
+    decides that by matching the term takes a disjunctive last literal apart.)"""
+    res = RuleResult(rule_id, 'the expansion reads every argument component that the reported result depends on and the premises do not determine', floor=floor)
+    for mi in macro_index(repo):
+        if mi.eval is None or mi.gpt is None or not scope(mi):
+            continue
+        ce, cg = _arg_components(mi.eval), _arg_components(mi.gpt)
+        if ce is None or cg is None:
+            continue
+        a_e, comp_e, _dir_e, _w = ce
+        _a_g, comp_g, dir_g, whole_g = cg
+        if not comp_e:
+            continue
+        fe = flow_of(mi.eval.node)
+        dep = set()
+        for r in returns_of(mi.eval.node):
+            if r.value is None:
+                continue
+            names = fe.names_closure(r.value)
+            dep |= {i for i, ns in comp_e.items() if ns & names}
+        argnames = {a_e} | {n for ns in comp_e.values() for n in ns}
+        determined = set()
+        for c in ast.walk(mi.eval.node):
+            cp = compare_parts(c) if isinstance(c, ast.Compare) else None
+            if not cp or cp[0] not in (ast.Eq, ast.NotEq):
+                continue
+            for x, y in ((cp[1], cp[2]), (cp[2], cp[1])):
+                if isinstance(x, ast.Name):
+                    for i, ns in comp_e.items():
+                        if x.id in ns and not (fe.names_closure(y) & argnames) and any(isinstance(z, ast.Name) for z in ast.walk(y)):
+                            determined.add(i)
+        if whole_g:
+            res.add('%s :: expansion-reads-arguments' % mi.key, True, 'the expansion hands on the whole argument tuple', mi.gpt.loc, nontrivial=False)
+            continue
+        loaded = {n.id for n in ast.walk(mi.gpt.node) if isinstance(n, ast.Name) and isinstance(n.ctx, ast.Load)}
+        used = {i for i, ns in comp_g.items() if ns & loaded} | dir_g
+        missing = sorted(dep - determined - used)
+        nm = lambda i: '/'.join(sorted(comp_e[i]))
+        res.add('%s :: expansion-reads-arguments' % mi.key, not missing,
+                'result depends on %s; determined by the premises: %s; read by the expansion: %s' % (
+                    ', '.join(nm(i) for i in sorted(dep)) or 'no component', ', '.join(nm(i) for i in sorted(determined)) or 'none',
+                    ', '.join(str(i) for i in sorted(used)) or 'none') if not missing else
+                'the reported result depends on the argument component %s, which no guard ties to the premises, but the expansion never reads it: '
+                'for all values of it the expansion proves the same theorem, the evaluation reports different ones' % ', '.join(nm(i) for i in missing),
+                mi.gpt.loc, nontrivial=bool(dep))
+    return res
